@@ -139,7 +139,7 @@ def record_success(ctx: ExecutionContext) -> None:
 
 def record_cancel(ctx: ExecutionContext) -> None:
     """Record cancellation with circuit breaker (no event emitted)."""
-    if ctx.breaker is not None:
+    if ctx.breaker is not None and not ctx.settled:
         ctx.settled = True
         ctx.breaker.record_cancel()
 
